@@ -64,7 +64,24 @@ pub fn record_parse(opts: &Opts) -> i32 {
                 }
                 if rng.chance(1, 2) { words.push(rand_option(&mut rng)); }
                 if rng.chance(1, 3) { words.push(rand_primary(&mut rng)); }
-                words.join(" ")
+                if rng.chance(1, 5) {
+                    // MANY misplaced options (5..12), interleaved with operators, groups and negations
+                    let n = 5 + rng.below(8);
+                    for k in 0..n {
+                        words.push(rand_option(&mut rng));
+                        if k + 1 < n { words.push(["", "-o", "-a", ",", "-o -name x", "! -false"][rng.below(6)].to_string()); }
+                    }
+                    words.retain(|w| !w.is_empty());
+                }
+                let mut s = words.join(" ");
+                if rng.chance(1, 6) {
+                    // an option glued to the operator or parenthesis in front of it / behind it: whatever such a spelling
+                    // means, no option may reach the returned tree and nothing may panic
+                    let o = rand_option(&mut rng);
+                    s = match rng.below(6) { 0 => format!("{} ,{}", s, o), 1 => format!("( {} ){} -print", s, o), 2 => format!("{} -o ({} )", s, o),
+                                             3 => format!("{} !{}", s, o), 4 => format!("( {} {}),", s, o), _ => format!("{},{}", o, s) };
+                }
+                s
             }
             // one primary, alone or in a simple context, sometimes with a mutated argument
             "vocab" => {
@@ -149,6 +166,27 @@ pub fn record_compile(opts: &Opts) -> i32 {
     let mut rng = Rng(seed ^ 0x5eed_0002);
     let out = std::io::stdout();
     let mut out = out.lock();
+    if opts.get("profile") == Some("spine") {
+        let hi = opts.num("size", 240) as usize;
+        let mut depths = ladder(30, hi);
+        if opts.get("few").is_some() { depths.retain(|d| [40, 41, 48, 49, 64, 65, 128, 129, 200, 240].contains(d) || numdict_new().contains(d)); }
+        for (shape, d, t) in spine_trees(&depths, false) {
+            let o = lipe_find_parser::RunOptions::default();
+            let c = run_compile(&t, &o, &paths);
+            emit(&mut out, &json!({"t": expr_to_json(&t), "o": opts_to_json(&o), "c": c, "shape": shape, "depth": d}));
+        }
+        return 0;
+    }
+    if opts.get("profile") == Some("spine16") {
+        let mut depths = ladder(30, opts.num("size", 240) as usize);
+        if opts.get("few").is_some() { depths.retain(|d| [49, 65, 200].contains(d) || numdict_new().contains(d)); }
+        for (shape, d, t) in spine16(&depths) {
+            let o = lipe_find_parser::RunOptions::default();
+            let c = run_compile(&t, &o, &paths);
+            emit(&mut out, &json!({"t": expr_to_json(&t), "o": opts_to_json(&o), "c": c, "shape": shape, "depth": d}));
+        }
+        return 0;
+    }
     if opts.get("profile") == Some("affix") {
         for t in affix_programs() {
             let o = lipe_find_parser::RunOptions::default();
